@@ -169,14 +169,29 @@ func ViewStates(shape []int, fortran bool, depth int, withT bool) [][]Step {
 		root = ref.RootF(shape)
 	}
 	// dedup on the model view AND the kinds of the steps taken: the same logical view reached as slice-of-transpose and
-	// as transpose-of-slice is two different real states (different flags / pending transposes), so they are not merged
+	// as transpose-of-slice is two different real states (different flags / pending transposes), so they are not merged;
+	// neither are the same elements cut by slice arguments of different forms (different storage windows)
 	kinds := func(path []Step, last Step) string {
 		var sb strings.Builder
 		for _, st := range append(append([]Step{}, path...), last) {
 			if st.Op == "T" {
 				sb.WriteString(st.String())
 			} else {
+				// the FORM of every slice argument (whole axis, index, range, stepped range): the same elements cut by a
+				// stepped and by a plain range are views with different storage windows
 				sb.WriteString(st.Op)
+				for _, x := range st.Sl {
+					switch {
+					case x.Nil:
+						sb.WriteByte('n')
+					case x.Single:
+						sb.WriteByte('i')
+					case x.Step > 1:
+						sb.WriteByte('s')
+					default:
+						sb.WriteByte('r')
+					}
+				}
 			}
 			sb.WriteByte('.')
 		}
